@@ -135,6 +135,8 @@ if bdir.exists():
     for sd in sorted(bdir.iterdir()):
         if not (sd / "patch.diff").exists():
             continue
+        if json.load(open(sd / "meta.json")).get("confirmed_by_me", {}).get("unresolved"):
+            continue        # a documented, unresolved false alarm: no passing twin
         e0 = hunks((sd / "patch.diff").read_text())
         edits = None
         for nctx in (3, 1, 0):
